@@ -21,7 +21,7 @@ import (
 	"github.com/flamego/flamego/verifharness/internal/rt"
 )
 
-const rule = "case = a valid route set in which a random subset of routes gets Headers(...) 1..3 times with 0..2 pairs each (the last call is the truth), routes registered through Get / Route / Routes(\"GET,POST\") / Routes(\"get, Post\") / Routes(path, \"GET\", \"POST\") / Any, incl. fully static and optional routes; requests built from route instances (both forms, every method) with random header sets (absent, empty, matching, non-matching, other case of the name). " +
+const rule = "case = a valid route set in which a random subset of routes gets Headers(...) 1..3 times with 0..2 pairs each (the last call is the truth), routes registered through Get / Route / Routes(\"GET,POST\") / Routes(\"get, Post\") / Routes(path, \"GET\", \"POST\") / Any, incl. fully static and optional routes; requests built from route instances (both forms, every method) with random header sets (absent, empty, matching, non-matching, other case of the name, repeated fields whose values agree on the verdict). " +
 	"Oracle: reference matcher with the gate 'every constrained header has a non-empty value matched by its expression' applied to both forms and all methods of the route; the handler that ran (or not-found) must be the reference winner. " +
 	"non-trivial = a case with a request whose path is admitted by a constrained route whose constraints fail (so another route or not-found must take it), or that reaches a constrained route through its short form, a non-first method or a fully static path; distinct by case text"
 
@@ -281,6 +281,39 @@ func genCase(t *rapid.T) Case {
 			default:
 				reqs[i].H = append(reqs[i].H, [2]string{name, "v1"})
 			}
+		}
+	}
+	// a constrained header may be repeated; only repetitions whose verdict does
+	// not depend on which of the values counts are generated (both match the
+	// route's expression or both do not, both non-empty)
+	for i := range reqs {
+		if rapid.IntRange(0, 3).Draw(t, "repeat") != 0 || len(reqs[i].H) == 0 {
+			continue
+		}
+		j := rapid.IntRange(0, len(reqs[i].H)-1).Draw(t, "rj")
+		name, v1 := reqs[i].H[j][0], reqs[i].H[j][1]
+		v2 := hdrVals[rapid.IntRange(0, len(hdrVals)-1).Draw(t, "rv")]
+		if v1 == "" || v2 == "" {
+			continue
+		}
+		ok := true
+		for _, g := range c.Regs {
+			if len(g.Headers) == 0 {
+				continue
+			}
+			last := g.Headers[len(g.Headers)-1]
+			for k := 1; k < len(last); k += 2 {
+				if http.CanonicalHeaderKey(last[k-1]) != http.CanonicalHeaderKey(name) {
+					continue
+				}
+				re := regexp.MustCompile(last[k])
+				if re.MatchString(v1) != re.MatchString(v2) {
+					ok = false
+				}
+			}
+		}
+		if ok {
+			reqs[i].H = append(reqs[i].H, [2]string{name, v2})
 		}
 	}
 	c.Reqs = reqs
